@@ -667,8 +667,13 @@ Section Cursor.
   Proof.
     unfold Proto2.rec_tx, fail_init. destruct (txs w !! i) as [T|] eqn:HT; [|intros []].
     destruct (t_apply T) as [a|] eqn:Ea.
-    { destruct a; try (cbn; intros []). intros H. apply phase_scan_putprop in H.
-      destruct H as (t & p & -> & Hp & -> & Hin & Hg). exists t, p, T. repeat split; auto. left. auto. }
+    { destruct a; try (cbn; intros []).
+      destruct (scan_props w i (default [] (t_props T)) _) as [[u|[t1 p1]]|] eqn:Hscan.
+      - cbn. intros [].
+      - cbn. intros [H|[]]. injection H as <- <-. apply scan_props_inr_in in Hscan. destruct Hscan as (Hp & Hf & Hin).
+        exists t1, p1, T. repeat split; auto. left. repeat split; auto. destruct (p_apply p1); [discriminate Hf|reflexivity].
+      - intros H. apply phase_scan_putprop in H.
+        destruct H as (t & p & -> & Hp & -> & Hin & Hg). exists t, p, T. repeat split; auto. left. auto. }
     destruct (t_abort T) as [ab|] eqn:Eb.
     { destruct ab; try (cbn; intros []). intros H. apply phase_scan_putprop in H.
       destruct H as (t & p & -> & Hp & -> & Hin & Hg). exists t, p, T. repeat split; auto. right. left. auto. }
@@ -698,7 +703,11 @@ Section Cursor.
   Proof.
     unfold Proto2.rec_tx, fail_init. destruct (txs w !! i) as [T|] eqn:HT; [|intros []].
     destruct (t_apply T) as [a|] eqn:Ea.
-    { destruct a; try (cbn; intros []). intros H. destruct (phase_scan_no_create _ _ _ _ _ _ _ _ _ _ _ H). }
+    { destruct a; try (cbn; intros []).
+      destruct (scan_props w i (default [] (t_props T)) _) as [[u|[t1 p1]]|] eqn:Hscan.
+      - cbn. intros [].
+      - cbn. intros [H|[]]. discriminate H.
+      - intros H. destruct (phase_scan_no_create _ _ _ _ _ _ _ _ _ _ _ H). }
     destruct (t_abort T) as [ab|] eqn:Eb.
     { destruct ab; try (cbn; intros []). intros H. destruct (phase_scan_no_create _ _ _ _ _ _ _ _ _ _ _ H). }
     destruct (t_commit T) as [c|] eqn:Ec.
